@@ -370,3 +370,106 @@ Theorem C07_observer_run_hands_over_what_the_iterator_delivered : forall fuel os
     (delivered (ov_iid os) d ops1 = [] /\ (os' = os \/ exists wr, os' = oset os (OWait wr))).
 Proof. exact observe_run_delivered. Qed.
 Print Assumptions C07_observer_run_hands_over_what_the_iterator_delivered.
+
+(* ======================================================================================================
+   Run level (Table/ClientsRun*.v): whole runs of the system from the initial database, in which the harness
+   does what it likes (write any table but the derived one, lock it, register initializers on it, abort, take
+   snapshots, run the collector, start an observer on it) except use the consumers' iterator ids.          *)
+From SV Require Import Table.ClientsRun Table.ClientsRun2 Table.ClientsRun3 Table.ClientsRun4 Table.ClientsRun5.
+
+(* at EVERY point of every such run - whatever the loop's phase, transaction open or not, Derive started or not -
+   the derived table is the (key, value) projection of the replay of everything the loop's iterator delivered *)
+Theorem C07_derive_run_invariant : forall n out cs s outs ops,
+  (out < n)%nat -> forallb (cop_ok out) cs = true ->
+  crun (init_csys n 0) cs = (s, outs, ops) ->
+  cs_db s = fst (run (init_db n) ops) /\
+  exists tout, nth_error (d_root (cs_db s)) out = Some tout /\ om_sorted (t_primary tout) /\
+               contents tout = cproj (replay (delivered derive_iid (init_db n) ops)).
+Proof. exact derive_run_invariant. Qed.
+Print Assumptions C07_derive_run_invariant.
+
+(* ... and right after any leg of the loop that ran an iteration whose Next refreshed from committed input
+   table S, the derived table has exactly the contents of the input table of the current root, which are those
+   of S. The usage hypotheses of C07_from_init_converges are discharged from the shape of the run; what remains
+   is revision room (no uint64 overflow) on the operations executed *)
+Theorem C07_derive_run_converges : forall n inn out cs s outs ops ds S s' x ops1,
+  (out < n)%nat -> (inn < n)%nat -> inn <> out -> forallb (cop_okG inn out) cs = true ->
+  crun (init_csys n 0) cs = (s, outs, ops) ->
+  cs_d s = Some ds -> dv_phase ds <> DReg -> d_txn (cs_db s) = None -> d_ready ds (cs_db s) = true ->
+  next_source (fst (step (cs_db s) (OBegin [out]))) derive_iid STxn = Some S ->
+  room_run (init_db n) (ops ++ [OBegin [out]; ONext derive_iid STxn None]) ->
+  cstep s CDeriveGo = (s', x, ops1) ->
+  exists tin' tout', nth_error (d_root (cs_db s')) inn = Some tin' /\ nth_error (d_root (cs_db s')) out = Some tout' /\
+                     contents tout' = contents tin' /\ contents tin' = contents S.
+Proof. exact derive_run_converges'. Qed.
+Print Assumptions C07_derive_run_converges.
+
+Example C07_derive_run_nonvacuous :
+  forallb (cop_ok 1) fx_run = true /\
+  (let '(s, outs, ops) := crun (init_csys 2 0) fx_run in
+   length ops = 49%nat /\
+   map contents (d_root (cs_db s)) = [[([97], 5); ([98], 2)]; [([97], 5); ([98], 2)]] /\
+   cproj (replay (delivered derive_iid (init_db 2) ops)) = [([97], 5); ([98], 2)] /\
+   length (delivered derive_iid (init_db 2) ops) = 4%nat).
+Proof. exact derive_run_invariant_nonvacuous. Qed.
+
+(* Observable, every run: everything the observer's iterator has been handed has been reported by a returned
+   callback, in order, except the change of the callback in progress (after cancellation at most that one is
+   missing); once released the goroutine is always inside a callback or in the select on the watch channel of
+   the observed table's CURRENT revision with its iterator exhausted *)
+Theorem C07_observer_run_invariant : forall n cs s outs ops os,
+  forallb (cop_ok' n) cs = true -> crun (init_csys n 0) cs = (s, outs, ops) -> cs_o s = Some os ->
+  cs_db s = fst (run (init_db n) ops) /\
+  let dlv := delivered observe_iid (init_db n) ops in
+  match ov_phase os with
+  | OReg => dlv = [] /\ reported outs = []
+  | OHold c => dlv = reported outs ++ [c] /\
+               exists it, assoc observe_iid (d_iters (cs_db s)) = Some it /\ it_tab it = ov_tab os
+  | OWait wr => dlv = reported outs /\
+                exists it cur, assoc observe_iid (d_iters (cs_db s)) = Some it /\ it_tab it = ov_tab os /\
+                               it_pending it = None /\ it_watchrev it = wr /\
+                               nth_error (d_root (cs_db s)) (ov_tab os) = Some cur /\ t_rev cur = wr
+  | ODone => exists tl, dlv = reported outs ++ tl /\ (length tl <= 1)%nat
+  end.
+Proof. exact observer_run_invariant. Qed.
+Print Assumptions C07_observer_run_invariant.
+
+(* ... and whenever the observer waits, replaying everything its callback was given yields exactly the observed
+   table of the current root (objects and revisions). Residual hypotheses: those of C07_from_init_converges on the
+   operations executed, and that the observer's delete tracker is registered in the root *)
+Theorem C07_observer_converges : forall n cs s outs pre tab post os wr t0,
+  forallb (cop_ok' n) cs = true ->
+  crun (init_csys n 0) cs = (s, outs, pre ++ OChanges observe_iid tab :: post) ->
+  forallb (fun o => negb (touches observe_iid o)) pre = true ->
+  cs_o s = Some os -> ov_phase os = OWait wr ->
+  let dc := fst (run (init_db n) pre) in
+  let d0 := fst (step dc (OChanges observe_iid tab)) in
+  room_run (init_db n) (pre ++ OChanges observe_iid tab :: post) ->
+  created dc observe_iid tab t0 ->
+  (forall cur, nth_error (d_root dc) tab = Some cur -> ~ reg observe_iid cur) ->
+  friendly_run observe_iid tab d0 post ->
+  (forall cur, nth_error (d_root (cs_db s)) tab = Some cur -> reg observe_iid cur) ->
+  tab = ov_tab os /\
+  exists cur, nth_error (d_root (cs_db s)) tab = Some cur /\ t_rev cur = wr /\
+              replay (reported outs) = abs_of cur.
+Proof. exact observer_converges. Qed.
+Print Assumptions C07_observer_converges.
+
+Example C07_observer_nonvacuous :
+  let r := crun (init_csys 1 0) hx_run in
+  let flat := snd r in let s := fst (fst r) in
+  let pre := firstn 4 flat in let post := skipn 5 flat in
+  let dc := fst (run (init_db 1) pre) in
+  let d0 := fst (step dc (OChanges observe_iid 0)) in
+  forallb (cop_ok' 1) hx_run = true /\
+  flat = pre ++ OChanges observe_iid 0 :: post /\
+  forallb (fun o => negb (touches observe_iid o)) pre = true /\
+  option_map ov_phase (cs_o s) = Some (OWait 3) /\
+  room_run (init_db 1) (pre ++ OChanges observe_iid 0 :: post) /\
+  (exists t0, created dc observe_iid 0 t0) /\
+  (forall cur, nth_error (d_root dc) 0 = Some cur -> ~ reg observe_iid cur) /\
+  friendly_run observe_iid 0 d0 post /\
+  (forall cur, nth_error (d_root (cs_db s)) 0 = Some cur -> reg observe_iid cur) /\
+  replay (reported (snd (fst r))) = [([98], (2, 2))] /\
+  map abs_of (d_root (cs_db s)) = [[([98], (2, 2))]].
+Proof. exact observer_converges_nonvacuous. Qed.
